@@ -49,11 +49,14 @@ def main():
             for prop in props:
                 env = dict(os.environ, VERIF_REPO_SRC=os.path.join(scratch, "src"), PYTHONHASHSEED="0")
                 t = time.time()
-                r = subprocess.run([sys.executable, "-m", f"checks.{prop.lower()}", "--budget", str(budget), "--no-evidence"],
+                r = subprocess.run(["/venv/bin/python", "-m", f"checks.{prop.lower()}", "--budget", str(budget), "--no-evidence"],
                                    cwd=VERIF, env=env, capture_output=True, text=True, timeout=budget + 900)
                 clauses = sorted({ln.split(":")[0].strip() for ln in r.stdout.splitlines() if ln.startswith("  C")})
                 status = "CAUGHT" if r.returncode == 1 else ("MISSED" if r.returncode == 0 else "ERROR")
                 print(sid, prop, status, clauses, f"{time.time() - t:.0f}s", flush=True)
+                if status == "CAUGHT" and not clauses:
+                    status = "ERROR"
+                    print(r.stdout[-300:], r.stderr[-300:])
                 if status != "CAUGHT" and prop == meta["property"]:
                     rc_all = 1
                     print(r.stdout[-400:], r.stderr[-400:])
